@@ -220,11 +220,20 @@ def check_overlap(ck):
             wfs[1] = GaussWF(alpha=0.9, kvec=ck.rng.normal(size=3) * 0.5)
         nconf, tstep = int(ck.rng.integers(1, 6)), float(ck.rng.choice([0.05, 0.3, 1.0]))
         c = ck.rng.normal(size=(nconf, 1, 3))
-        from pyqmc.configurations.coord import OpenConfigs
-        cfg = OpenConfigs(c.copy())
+        from pyqmc.configurations.coord import OpenConfigs, PeriodicConfigs
+        periodic = it % 2 == 1
+        if periodic:
+            # lattice-periodic wave functions and walkers near the faces of the cell, so that moves cross them and are wrapped
+            wfs = [CosWF(LAT, amp=float(ck.rng.uniform(0.2, 1.0))) for _ in range(nwf)]
+            frac = ck.rng.random((nconf, 1, 3))
+            frac[:, 0, :] = np.where(ck.rng.random((nconf, 3)) < 0.6, np.where(ck.rng.random((nconf, 3)) < 0.5, 0.02, 0.98), frac[:, 0, :])
+            c = frac @ LAT
+            tstep = float(ck.rng.choice([0.3, 1.0]))
+        cfg = PeriodicConfigs(c.copy(), LAT.copy()) if periodic else OpenConfigs(c.copy())
+        c = cfg.configs.copy()
         gauss, us = [ck.rng.normal(size=(nconf, 3))], [ck.rng.random(nconf)]
-        inp = {"nwf": nwf, "nconf": nconf, "tstep": tstep, "x": c.tolist(), "gauss": gauss[0].tolist(), "u": us[0].tolist()}
-        # oracle: sum_i |Psi_i|^2, drift = limdrift(mean_i Re grad ln Psi_i)
+        inp = {"nwf": nwf, "nconf": nconf, "tstep": tstep, "periodic": periodic, "x": c.tolist(), "gauss": gauss[0].tolist(), "u": us[0].tolist()}
+        # oracle: sum_i |Psi_i|^2, drift = limdrift(mean_i Re grad ln Psi_i); densities with the UNWRAPPED displacement
         xe = c[:, 0]
         g = gauss[0] * math.sqrt(tstep)
         d0 = limdrift_ref(np.mean([np.real(w._grad1(xe)) for w in wfs], axis=0))
@@ -234,6 +243,11 @@ def check_overlap(ck):
         den = sum(np.abs(w._psi1(xe)) ** 2 for w in wfs)
         q = num / den * np.exp(lnT(xn, xe, d1, tstep) - lnT(xe, xn, d0, tstep))
         eacc = us[0] < np.minimum(1.0, q)
+        if periodic:
+            import pyqmc.pbc.pbc as pbc
+            crossed = np.any(pbc.enforce_pbc(LAT, xn)[1] != 0, axis=1)
+            ck.stats["overlap_moves_crossing_a_cell_face"] = ck.stats.get("overlap_moves_crossing_a_cell_face", 0) + int(crossed.sum())
+            xn = pbc.enforce_pbc(LAT, xn)[0]
         def run():
             with Draws(gauss, us):
                 sm.sample_overlap_worker(wfs, cfg, tstep, 1, None)
